@@ -5,6 +5,7 @@ package main
 
 import (
 	"fmt"
+	"go/ast"
 	"go/types"
 	"strconv"
 	"strings"
@@ -1375,6 +1376,18 @@ func callSiteName(call *ssa.CallCommon) string {
 			if pt, ok := fa.X.Type().Underlying().(*types.Pointer); ok {
 				if stt, ok := pt.Elem().Underlying().(*types.Struct); ok {
 					return stt.Field(fa.Field).Name()
+				}
+			}
+		}
+	}
+	// a function value held in a local variable: the variable's source name (from the debug info)
+	if call.Value != nil && call.Value.Parent() != nil {
+		for _, b := range call.Value.Parent().Blocks {
+			for _, in := range b.Instrs {
+				if dr, ok := in.(*ssa.DebugRef); ok && !dr.IsAddr && dr.X == call.Value {
+					if id, ok := dr.Expr.(*ast.Ident); ok {
+						return id.Name
+					}
 				}
 			}
 		}
